@@ -25,7 +25,7 @@ TESTED_ONLY = {
  'C08': ['that the *code* does not write through numpy views or shared dictionaries (before/after oracle on every call); heap frames of constructors other than copy'],
  'C09': ['contents and freshness of flagComplex / vietorisRipsComplex / Filtration.copy; follow-up mutation scripts on either side (oracles fresh, same-content, unchanged); names / orders / faces / attribute values of copy() are proved'],
  'C10': ['nothing of the statement is left to testing alone: the six operators, the order laws, copy == source, delete => strictly smaller and differ => never equal are proved on the model; the oracle c10 ties them to the code on mutated copies'],
- 'C11': ['flag complexes beyond 4 points; growFlagComplex = rebuild (oracles c11, samefam)'],
+ 'C11': ['a simplex exactly on the cliques beyond 4 points, idempotence, growFlagComplex = rebuild (oracles c11, samefam); same points and edges, source contained with names / orders / faces, only orders >= 2 added are proved for every complex'],
  'C12': ['the family for arbitrary point sets in binary64 (oracle c12 with its own metric; the binary64 model itself is compared bit for bit with the code on every run); negative radius and diameter cases beyond the examples'],
  'C13': ['indices() / simplicesAddedAtIndex bookkeeping against the births, deletion of the whole star across indices, complexes() as a whole, addSimplexWithBasis on a filtration (shadow-log oracle c13); monotone views, births, views closed under faces and closed snapshots are proved for every history'],
  'C14': ['agreement of listings, counts, Euler characteristic, Betti numbers of the index-aware queries with the snapshot (oracle c14 per query; membership / order / faces of visible simplices are proved); setMinimumIndex / setMaximumIndex'],
